@@ -62,6 +62,10 @@ type VerifC13Conc struct {
 // VerifC13HTTPGet is set by the driver's main package: a GET through the real handlers of internal/web.
 var VerifC13HTTPGet func(store *Store, dsm *DsManager, path, accept string) (int, []byte)
 
+// set by the driver's main package: the HttpTransform path (package jobs) and the HTTP dataset source (package source)
+var VerifC13TCompact func(store *Store, uri string) (string, error)
+var VerifC13SrcRead func(store *Store, locals map[string]string, key string) (string, string, error)
+
 type VerifC13Pub struct {
 	Name string   `json:"name"`
 	Exps []string `json:"exps"`
@@ -375,6 +379,16 @@ func VerifC13Run(c VerifC13Case, dir string) (obs VerifC13Obs) {
 				o = VerifC13Out{K: "ctx", M: verifPairs(back.Namespaces)}
 			} else {
 				o = VerifC13Out{K: "err"}
+			}
+		case "tcompact":
+			strOut(VerifC13TCompact(s, op.S))
+		case "srcpage":
+			id, key, err := VerifC13SrcRead(s, op.Locals, op.S)
+			if err == nil && id != key {
+				// the page's entity id and its property key are the same identifier
+				o = VerifC13Out{K: "str", S: key, Msg: "entity id compacted to " + id}
+			} else {
+				strOut(key, err)
 			}
 		case "jsonld":
 			// a page of the dataset rendered as JSON-LD by the real handler
